@@ -29,6 +29,7 @@ type GenOpts struct {
 	Holds       bool // a destination or the DLQ stops answering at some record (first run only)
 	Hostile     bool // C09: one hostile reply shape of a connector or processor per case
 	FreeSched   int  // percentage of cases that run with the boundary scheduler switched off
+	GateCalls   int  // percentage of cases in which plugin Open/Stop/Teardown answer at scheduled instants
 
 	// DLQ window: if Unlimited the window never stops the pipeline.
 	UnlimitedDLQ bool
@@ -106,6 +107,7 @@ func GenCase(t *rapid.T, o GenOpts) *Case {
 	c.GateCommits = o.GateCommits && chance(t, "gatecommits", 40)
 	c.GateSrcAcks = o.GateAcks && chance(t, "gateacks", 35)
 	c.FreeSched = o.FreeSched > 0 && chance(t, "freesched", o.FreeSched)
+	c.GatePluginCalls = o.GateCalls > 0 && !c.FreeSched && chance(t, "gatecalls", o.GateCalls)
 	c.GateCallbacks = o.GateCommits && chance(t, "gatecallbacks", 40)
 
 	nsrc := rapid.IntRange(1, max(1, o.MaxSources)).Draw(t, "nsrc")
